@@ -607,6 +607,104 @@ def rule_pos(ctx, res, src):
               'advanced', f.loc)
 
 
+def rule_start_pos(ctx, res, src):
+    """the line / column a token is created with: either the current
+    counters (one-line tokens: the counters advance only after the token is
+    made, R-C07-pos) or a pair of saved attributes <state>_lineno /
+    <state>_charno of a multi-line construct -- and then every place that
+    opens the construct (stores a non-None value into <state>) records both
+    counters next to it, and nothing else writes them."""
+    f = src.f
+    where = f.qual
+    u = ast.unparse
+    ctors = []
+    for n in walk_own(f.node):
+        if isinstance(n, ast.Call) and len(n.args) >= 3 and (
+                (isinstance(n.func, ast.Name) and (
+                    n.func.id.startswith('Tok') or n.func.id == 'tok_class'))
+                or (isinstance(n.func, ast.Attribute) and
+                    n.func.attr.startswith('Tok'))):
+            ctors.append(n)
+    if not ctors:
+        res.vanished('R-C07-pos', where, 'token constructors',
+                     'no token is created with a position in '
+                     '_process_token')
+        return
+    stores = {}
+    for n in walk_own(f.node):
+        if isinstance(n, ast.Assign):
+            for t in n.targets:
+                if isinstance(t, ast.Attribute) and isinstance(
+                        t.value, ast.Name) and t.value.id == 'self':
+                    stores.setdefault(t.attr, []).append(n)
+
+    def block_of(st):
+        par = getattr(st, '_parent', None)
+        for fld in ('body', 'orelse', 'finalbody'):
+            lst = getattr(par, fld, None)
+            if isinstance(lst, list) and any(x is st for x in lst):
+                return lst
+        return None
+
+    def is_none(e):
+        return isinstance(e, ast.Constant) and e.value is None
+    for c in ctors:
+        L, C = u(c.args[1]), u(c.args[2])
+        inst = 'token created by {}(..) starts at the recorded position' \
+            .format(u(c.func))
+        loc = f.module.loc(c)
+        if (L, C) == ('self._cur_lineno', 'self._cur_charno'):
+            res.holds('R-C07-pos', where, inst, 'the current counters', loc)
+            continue
+        if not (L.startswith('self.') and L.endswith('_lineno') and
+                C.startswith('self.') and C.endswith('_charno') and
+                L[:-7] == C[:-7]):
+            res.undecided('R-C07-pos', where, inst,
+                          'position arguments ({}, {}) are neither the '
+                          'current counters nor a <state>_lineno / '
+                          '<state>_charno pair'.format(L, C), loc)
+            continue
+        state = L[5:-7]
+        la, ca = state + '_lineno', state + '_charno'
+        opens = [st for st in stores.get(state, []) if not is_none(st.value)]
+        if not opens:
+            res.undecided('R-C07-pos', where, inst,
+                          'no statement opens the state self.' + state, loc)
+            continue
+        problems = []
+        for st in opens:
+            blk = block_of(st) or []
+            vals = {}
+            for x in blk:
+                if isinstance(x, ast.Assign):
+                    for t in x.targets:
+                        if isinstance(t, ast.Attribute) and \
+                                t.attr in (la, ca):
+                            vals[t.attr] = u(x.value)
+            if vals.get(la) != 'self._cur_lineno':
+                problems.append('line {}: the construct is opened without '
+                                'recording its start line ({} = {})'.format(
+                                    st.lineno, la, vals.get(la)))
+            if vals.get(ca) != 'self._cur_charno':
+                problems.append('line {}: the construct is opened without '
+                                'recording its start column ({} = {})'.format(
+                                    st.lineno, ca, vals.get(ca)))
+        open_blocks = [id(block_of(st)) for st in opens]
+        for a in (la, ca):
+            for st in stores.get(a, []):
+                if not is_none(st.value) and id(block_of(st)) not in \
+                        open_blocks:
+                    problems.append('line {}: {} is written outside the '
+                                    'place that opens the construct'.format(
+                                        st.lineno, a))
+        res.check(not problems, 'R-C07-pos', where, inst,
+                  'self.{0}_lineno / _charno are recorded from the counters '
+                  'wherever self.{0} is opened ({1} place(s))'.format(
+                      state, len(opens)),
+                  '; '.join(problems[:2]) + ': the token reports the '
+                  'position of an earlier construct or None', loc)
+
+
 def run(ctx, res):
     src = leximpl.LexerSource(ctx)
     impl, base = leximpl.build_impl(src)
@@ -616,3 +714,4 @@ def run(ctx, res):
     rule_chunk(ctx, res, src, impl, base)
     numvalue.rule_value(ctx, res, src, impl, base)
     rule_pos(ctx, res, src)
+    rule_start_pos(ctx, res, src)
